@@ -114,6 +114,13 @@ let dinput = function
     { d_attrs = list attr attrs; d_name = str name; d_generics = generics g; d_data = data d }
   | _ -> failwith "dinput"
 
+(* values for the behavioural cross-check:  (D None|(Some "V") ((key z) ...))  with z a decimal integer *)
+let value_of = function
+  | L [A "D"; vn; L fs] ->
+    VData (opt str vn, List.map (function L [k; z] -> (str k, VAtom (z_of_string (str z))) | _ -> failwith "field") fs)
+  | _ -> failwith "value"
+let cmp_char = function Lt -> 'L' | Eq -> 'E' | Gt -> 'G'
+
 let features (s : string) : trait list =
   if s = "ALL" then all_traits
   else
@@ -125,6 +132,23 @@ let () =
     while true do
       let line = input_line stdin in
       match String.split_on_char '\t' line with
+      | ["RUN"; id; op; sx; vsx] ->
+        (try
+           let d = dinput (parse_sexp sx) in
+           let vs = (match parse_sexp vsx with L l -> List.map value_of l | _ -> failwith "values") in
+           let b = Buffer.create 256 in
+           (match op with
+            | "eq" -> List.iter (fun a -> List.iter (fun x ->
+                Buffer.add_char b (match model_eq d a x with Some true -> '1' | Some false -> '0' | None -> '?')) vs) vs
+            | "cmp" -> List.iter (fun a -> List.iter (fun x ->
+                Buffer.add_char b (match model_cmp d a x with Some c -> cmp_char c | None -> '?')) vs) vs
+            | "partial_cmp" -> List.iter (fun a -> List.iter (fun x ->
+                Buffer.add_char b (match model_partial_cmp d a x with Some (Some c) -> cmp_char c | Some None -> 'N' | None -> '?')) vs) vs
+            | "hash" -> List.iter (fun a ->
+                Buffer.add_string b (match model_hash d a with Some l -> String.concat "," l | None -> "?"); Buffer.add_char b ';') vs
+            | _ -> failwith "op");
+           print_string id; print_string "\tRUN\t"; print_string (Buffer.contents b); print_newline ()
+         with Failure m -> (print_string id; print_string "\tRUN\tBADINPUT "; print_string m; print_newline ()))
       | ["CLASSES"; id; feats; sx] ->
         (try
            let d = dinput (parse_sexp sx) in
